@@ -245,8 +245,13 @@ def pmap(ctx, fn, items, procs=None):
     if procs <= 1 or len(items) <= 1:
         subs = [_pmap_worker(a) for a in args]
     else:
-        with mp.get_context('fork').Pool(procs, maxtasksperchild=50) as pool:
-            subs = pool.map(_pmap_worker, args, chunksize=1)
+        from concurrent.futures import ProcessPoolExecutor
+        from concurrent.futures.process import BrokenProcessPool
+        try:
+            with ProcessPoolExecutor(procs, mp_context=mp.get_context('fork')) as pool:
+                subs = list(pool.map(_pmap_worker, args, chunksize=1))
+        except BrokenProcessPool:
+            raise HarnessError('a worker process died (native code called exit or crashed)')
     out = []
     for sub in subs:
         ctx.merge(sub)
